@@ -97,9 +97,14 @@ def writeBytes : Write → Nat × Nat × Bytes      -- (kind, offset, data)
   | .linkHdr => (2, 0, encodeLinkHeader)
   | .linkAppend s => (3, 0, encodeStub s)
 
-def fnvWrites (ws : List Write) : UInt64 :=
-  ws.foldl (fun h w =>
-    let (k, off, data) := writeBytes w
+def eventBytes : Event → Nat × Nat × Bytes
+  | .write w => writeBytes w
+  | .truncTrie => (4, 0, [])
+  | .truncLinks => (5, 0, [])
+
+def fnvEvents (es : List Event) : UInt64 :=
+  es.foldl (fun h e =>
+    let (k, off, data) := eventBytes e
     fnvBytes (fnvBytes (fnvStep h k) (toLE off 8)) data) fnvInit
 
 def imageLine (s : State) : String :=
@@ -242,14 +247,14 @@ def step (s : State) (line : String) : State × String :=
 
 structure Drv where
   s : State := {}
-  full : Array Write := #[]       -- the whole write history since init, oldest first (C18)
+  full : Array Event := #[]       -- the whole event history since init, oldest first (C18)
   saved : Option State := none
   cos : List (Nat × CoSt) := []   -- live generators (C16)
 
-def drvStep (d : Drv) (line : String) : Drv × String × List Write :=
+def drvStep (d : Drv) (line : String) : Drv × String × List Event :=
   match line.trimAscii.toString.splitOn " " with
   | ["cut", k, j] =>
-    (match cutOpen d.s d.full.toList (k.toNat?.getD 0) (j.toNat?.getD 0) with
+    (match cutOpenE d.s d.full.toList (k.toNat?.getD 0) (j.toNat?.getD 0) with
      | .ok s' => ({ d with s := s', saved := some (d.saved.getD d.s) }, "ok", [])
      | .error e => (d, errStr e, []))
   | ["uncut"] => ({ d with s := d.saved.getD d.s, saved := none }, "ok", [])
@@ -269,7 +274,7 @@ def drvStep (d : Drv) (line : String) : Drv × String × List Write :=
      | none => (d, "bad-op", [])
      | some c =>
        let (s', c', o) := c.resume { d.s with log := [] }
-       let ws := s'.log.reverse
+       let ws := opEvents false s'.log.reverse
        let ans := match o with
          | .yielded => "yield"
          | .done a => "done " ++ renderAns a
@@ -277,8 +282,8 @@ def drvStep (d : Drv) (line : String) : Drv × String × List Write :=
        ({ d with s := s', full := d.full ++ ws.toArray, cos := dictSet d.cos (id.toNat?.getD 0) c' }, ans, ws))
   | _ =>
     let (s', ans) := step { d.s with log := [] } line
-    let ws := s'.log.reverse
-    let full := if line.startsWith "init " then ws.toArray else d.full ++ ws.toArray
+    let ws := opEvents (line.startsWith "clear ") s'.log.reverse
+    let full := if line.startsWith "init " || line.startsWith "overwrite " then ws.toArray else d.full ++ ws.toArray
     ({ d with s := s', full := full }, ans, ws)
 
 partial def loop (h : IO.FS.Stream) (out : IO.FS.Stream) (d : Drv) : IO Unit := do
@@ -286,7 +291,7 @@ partial def loop (h : IO.FS.Stream) (out : IO.FS.Stream) (d : Drv) : IO Unit := 
   if line.isEmpty then return ()
   let (d', ans, ws) := drvStep d line
   out.putStrLn ans
-  out.putStrLn ("#W " ++ toString ws.length ++ " " ++ toString (fnvWrites ws))
+  out.putStrLn ("#W " ++ toString ws.length ++ " " ++ toString (fnvEvents ws))
   loop h out d'
 
 def main : IO Unit := do
